@@ -112,6 +112,7 @@ inline constexpr std::size_t PAGE = 4096;
 inline constexpr std::size_t REDZONE = 64;
 inline constexpr unsigned char CANARY = 0xC5;
 inline constexpr int MAX_BLOCKS = 3000;
+inline constexpr std::size_t MAX_BLOCK_BYTES = std::size_t{8} << 20;  // larger requests end the run as "capped"
 
 struct Heap
 {
@@ -214,7 +215,7 @@ struct Heap
             if (log) log->add(0xFA17);
             throw SimBadAlloc{};
         }
-        if (nblocks >= MAX_BLOCKS - 1)
+        if (nblocks >= MAX_BLOCKS - 1 || bytes > MAX_BLOCK_BYTES)
         {
             capped = true;
             throw SimBadAlloc{};  // never reached in sane runs; the run is discarded as capped
